@@ -36,7 +36,7 @@ Example C13_pin_patterns :
   sve_decimal_pattern = BracePin.decimal_pattern /\
   sve_free_text_pattern = BracePin.free_text_pattern /\
   sve_any_part_pattern = BracePin.any_part_pattern /\
-  sve_pattern = BracePin.pattern.
+  sve_pattern_src = BracePin.pattern_src /\ sve_pattern_flags = BracePin.pattern_flags.
 Proof. repeat split; reflexivity. Qed.
 
 (** 32 letters drawn from A-Z; the elements / mixin / render methods the model covers. *)
